@@ -22,7 +22,7 @@ import vlib
 
 sys.path.insert(0, os.path.dirname(os.path.abspath(__file__)))
 
-MODULES = ["Verif.C16.Theorems"]
+MODULES = ["Verif.C16.Theorems", "Verif.C16.ControlTheorems"]
 THEOREMS = [
     # (i) positions
     "Verif.C16.fileOf_wf",
@@ -52,6 +52,13 @@ THEOREMS = [
     "Verif.C16.Rw.s1003_preserves",
     "Verif.C16.Rw.s1004_preserves",
     "Verif.C16.Rw.qf1003_preserves",
+    # (v) control flow of the statement rewrites (round 2)
+    "Verif.C16.Ctl.qf1006_loop_preserves",
+    "Verif.C16.Ctl.qf1006_outer_label_differs",
+    "Verif.C16.Ctl.qf1003_bodies_preserve",
+    "Verif.C16.Ctl.qf1003_else_break_differs",
+    "Verif.C16.Ctl.qf1003_seen_iff_nodup",
+    "Verif.C16.Ctl.qf1003_per_branch_seen_insufficient",
 ]
 
 VARIANTS = ["base", "crlf", "parens", "breaks", "rename"]
@@ -1030,7 +1037,15 @@ def shape_S1010(g, r):
 
 
 def str_ctx(g, t, r):
-    k = r.below(5)
+    """place a string-typed trigger `t` (a primary expression: a call) in an operand position, including the
+    positions in which a bare binary/unary replacement re-associates: base of an index or slice expression"""
+    k = r.below(8)
+    if k == 5:
+        return "res += %s[%s:]" % (t, r.choice(["1", "0", "len(s1)"]))
+    if k == 6:
+        return "res += fmt.Sprint(%s[%s])" % (t, r.choice(["0", "1", "len(s1)"]))
+    if k == 7:
+        return "res += %s[:%s]" % (t, r.choice(["1", "0", "len(s0)"]))
     if k == 0:
         return "res += %s" % t
     if k == 1:
@@ -1043,7 +1058,13 @@ def str_ctx(g, t, r):
 
 
 def shape_S1025(g, r):
-    k = r.below(5)
+    k = r.below(8)
+    if k == 5:
+        return "p := &s0\n\t" + str_ctx(g, 'fmt.Sprintf("%s", *p)', r)
+    if k == 6:
+        return "ch := make(chan string, 1)\n\tch <- %s\n\t%s" % (g.string(1)[0], str_ctx(g, 'fmt.Sprintf("%s", <-ch)', r))
+    if k == 7:
+        return str_ctx(g, 'fmt.Sprintf("%%s", %s)' % g.binary("+", g.string(1), g.string(1))[0], r)
     if k == 4:
         a = "SStr(%s)" % g.string(1)[0]
     elif k == 0:
@@ -1131,6 +1152,17 @@ def shape_QF1002(g, r):
 
 def shape_QF1003(g, r):
     x = g.operand(g.pure_int(1), 4)
+    k = r.below(4)
+    if k == 0:
+        # constants, possibly the same value in two different branches (spelled differently)
+        cs = [r.choice(["0", "1", "2", "3", "0x1", "1 + 1", "02"]) for _ in range(4)]
+        return ("if %s == %s {\n\t\tres += \"a\"\n\t} else if %s == %s || %s == %s {\n\t\tres += \"b\"\n\t} else if %s == %s {\n\t\tres += \"c\"\n\t}"
+                % (x, cs[0], x, cs[1], x, cs[2], x, cs[3]))
+    if k == 1:
+        # the chain is the body of a loop; a branch or the final else leaves / continues the loop
+        j = [r.choice(["res += \"%s\"" % c, "break", "continue", "res += \"%s\"\n\t\t\tbreak" % c]) for c in "abe"]
+        return ("for n := 0; n < 3; n++ {\n\t\tif %s+n == 1 {\n\t\t\t%s\n\t\t} else if %s+n == 2 {\n\t\t\t%s\n\t\t} else {\n\t\t\t%s\n\t\t}\n\t\tres += \".\"\n\t}"
+                % (x, j[0], x, j[1], j[2]))
     ys = [g.operand(g.pure_int(1), 4) for _ in range(4)]
     els = r.choice(["", " else {\n\t\tres += \"e\"\n\t}"])
     return ("if %s == %s {\n\t\tres += \"a\"\n\t} else if %s == %s || %s == %s {\n\t\tres += \"b\"\n\t}%s" % (x, ys[0], x, ys[1], x, ys[2], els))
@@ -1148,9 +1180,23 @@ def shape_QF1004(g, r):
 def shape_QF1005(g, r):
     gp = ExprGen(r, effects=False)
     x = gp.floating(2)[0]
-    n = r.choice(["2", "3", "1", "0"])
+    n = r.choice(["2", "3", "1", "1", "1", "0"])
     call = "math.Pow(%s, %s)" % (x, n)
-    k = r.below(6)
+    k = r.below(12)
+    if k >= 6:
+        y = gp.operand(gp.floating(1), 6)
+        op = r.choice(["+", "-", "*", "/", "<", "=="])
+        if k == 6:
+            return "res += fmt.Sprint(%s %s %s)" % (y, op, call)
+        if k == 7:
+            return "res += fmt.Sprint(%s %s %s)" % (call, op, y)
+        if k == 8:
+            return "res += fmt.Sprint(-%s %s %s)" % (call, op, y)
+        if k == 9:
+            return "res += fmt.Sprint(%s %s -%s)" % (y, op, call)
+        if k == 10:
+            return "res += fmt.Sprint(math.Abs(%s), %s)" % (call, y)
+        return "v := %s\n\tres += fmt.Sprint(v %s %s %s %s)" % (call, op, call, r.choice(["*", "-"]), y)
     if k == 0:
         return "res += fmt.Sprint(%s)" % call
     if k == 1:
@@ -1166,6 +1212,12 @@ def shape_QF1005(g, r):
 
 def shape_QF1006(g, r):
     c = g.boolean(2)[0]
+    k = r.below(6)
+    if k == 0:      # break naming the loop's own label
+        return "n := 0\nown:\n\tfor {\n\t\tif n > 3 || %s {\n\t\t\tbreak own\n\t\t}\n\t\tn++\n\t\tres += \"x\"\n\t}" % g.operand((c, 0), 2)
+    if k == 1:      # break naming an ENCLOSING loop whose label is used elsewhere too
+        return ("outer:\n\tfor m := 0; m < 3; m++ {\n\t\tn := 0\n\t\tfor {\n\t\t\tif n+m > 2 && %s {\n\t\t\t\tbreak outer\n\t\t\t}\n"
+                "\t\t\tif n > 3 {\n\t\t\t\tcontinue outer\n\t\t\t}\n\t\t\tn++\n\t\t\tres += \"x\"\n\t\t}\n\t}" % g.operand((c, 0), 3))
     return "n := 0\n\tfor {\n\t\tif n > 3 || %s {\n\t\t\tbreak\n\t\t}\n\t\tn++\n\t\tres += \"x\"\n\t}" % g.operand((c, 0), 2) if r.chance(1, 2) else \
         "n := 0\n\tfor {\n\t\tif %s {\n\t\t\tbreak\n\t\t}\n\t\tn++\n\t\tif n > 3 {\n\t\t\tbreak\n\t\t}\n\t\tres += \"x\"\n\t}" % c
 
@@ -1206,6 +1258,12 @@ def shape_S1018(g, r):
 
 
 def shape_S1016(g, r):
+    k = r.below(4)
+    if k < 2:
+        lit = ["&(Inner2{A: v.A, B: v.B})", "&Inner2{A: v.A, B: v.B}"][k]
+        return "v := Inner{%s, %s}\n\tw := %s\n\tres += fmt.Sprint(*w)" % (g.integer(1)[0], g.integer(1)[0], lit)
+    if k == 2:
+        return "v := Inner{%s, %s}\n\tres += fmt.Sprint((Inner2{v.A, v.B}).B, (Inner2{A: v.A, B: v.B}))" % (g.integer(1)[0], g.integer(1)[0])
     return "v := Inner{%s, %s}\n\tw := Inner2{A: v.A, B: v.B}\n\tres += fmt.Sprint(w)" % (g.integer(1)[0], g.integer(1)[0])
 
 
@@ -1235,12 +1293,33 @@ def shape_SA6005(g, r):
     return ctx_bool(g, ("strings.%s(%s) %s strings.%s(%s)" % (f, g.string(1)[0], r.choice(["==", "!="]), f, g.string(1)[0]), 3), r)
 
 
+def shape_S1034(g, r):
+    k = r.below(4)
+    use = ["res += fmt.Sprint(x.(int) + 1)", "v, ok := x.(int)\n\t\tres += fmt.Sprint(v, ok)", "if _, ok := x.(int); ok {\n\t\t\tres += \"i\"\n\t\t}",
+           "var v, ok = x.(int)\n\t\tres += fmt.Sprint(v, ok)"][k]
+    return ("var x any = %s\n\tif b0 {\n\t\tx = %s\n\t}\n\tswitch x.(type) {\n\tcase int:\n\t\t%s\n\tcase string:\n\t\tres += x.(string) + %s\n\tdefault:\n\t\tres += \"d\"\n\t}"
+            % (g.integer(1)[0], g.string(1)[0], use, g.string(1)[0]))
+
+
+def shape_ST1018(g, r):
+    # a format character (U+200B, three bytes) / a control character inside an interpreted or a raw string;
+    # the raw string spans lines (in the CRLF file the scanner strips the carriage returns from the value)
+    ch = r.choice(["\u200b", "\u200b", "\x01", "\u00ad"])
+    k = r.below(3)
+    if k == 0:
+        return "v := \"a%sb\"\n\tres += fmt.Sprint(len(v))" % ch
+    if k == 1:
+        return "v := `a\nb%sc\nd%s`\n\tres += fmt.Sprint(len(v))" % (ch, r.choice(["", ch]))
+    return "v := `a%sb`\n\tres += fmt.Sprint(len(v))" % ch
+
+
 # shapes of checks outside the simplification / quick-fix categories: their fixes must parse and
 # type-check, but are not claimed to be equivalent rewrites (no behaviour comparison)
-NO_BEHAVIOUR = {"ST1017", "SA4013", "SA6005"}
+NO_BEHAVIOUR = {"ST1017", "ST1018", "SA4013", "SA6005"}
 
 SHAPES = {
     "S1001": shape_S1001, "S1016": shape_S1016, "S1018": shape_S1018, "QF1011": shape_QF1011,
+    "S1034": shape_S1034, "ST1018": shape_ST1018,
     "ST1017": shape_ST1017, "SA4013": shape_SA4013, "SA6005": shape_SA6005,
     "S1002": shape_S1002, "S1003": shape_S1003, "S1004": shape_S1004, "S1005": shape_S1005, "S1010": shape_S1010,
     "S1011": shape_S1011, "S1021": shape_S1021, "S1025": shape_S1025, "S1028": shape_S1028, "S1030": shape_S1030,
@@ -1300,8 +1379,10 @@ def gen_shapes(ctx, genbin=None):
         with open(fn_, "w", newline="") as f:
             f.write(text)
         funcs[fn_] = fs
-    cf = os.path.join(vlib.VERIF, "corpus", "C16", "regress.go")
-    if os.path.exists(cf):
+    for cname, gname, crlf in (("regress.go", "gen_c.go", False), ("regress_crlf.go", "gen_d.go", True)):
+        cf = os.path.join(vlib.VERIF, "corpus", "C16", cname)
+        if not os.path.exists(cf):
+            continue
         text = open(cf).read()
         fs, cur = [], None
         for ln, l in enumerate(text.split("\n"), 1):
@@ -1312,8 +1393,9 @@ def gen_shapes(ctx, genbin=None):
                 fs.append((cur[0], cur[1], cur[2], ln))
                 cur = None
         text += "\nfunc init() {\n" + "".join('\tfuncs = append(funcs, fn{"%s", %s})\n' % (f[0], f[0]) for f in fs) + "}\n"
-        fn_ = os.path.join(d, "gen_c.go")
-        open(fn_, "w").write(text)
+        fn_ = os.path.join(d, gname)
+        with open(fn_, "w", newline="") as f:
+            f.write(text.replace("\n", "\r\n") if crlf else text)
         funcs[fn_] = fs
     job = {"id": "generated/shapes", "dir": d, "patterns": ["."], "tests": False, "env": ["GOFLAGS=-mod=mod", "GOPROXY=off", "GO111MODULE="],
            "typecheck": True, "variant": "generated", "weight": 1, "gover": "1.21"}
@@ -1325,7 +1407,8 @@ def gen_shapes(ctx, genbin=None):
     job["shape_of"] = shape_of
     return {"jobs": [job], "dir": d, "funcs": funcs,
             "summary": {"functions": sum(len(v) for v in funcs.values()), "per_shape": per, "shapes": sorted(SHAPES),
-                        "files": {"gen_a.go": "LF, plain imports", "gen_b.go": "CRLF, renamed imports"}}}
+                        "files": {"gen_a.go": "LF, plain imports", "gen_b.go": "CRLF, renamed imports",
+                                  "gen_c.go": "corpus/C16/regress.go", "gen_d.go": "corpus/C16/regress_crlf.go with CRLF line endings"}}}
 
 
 BEHAVIOUR_CATS = set(SHAPES)
@@ -1725,14 +1808,24 @@ META = {
             "four alternatives incl. SimplifyParentheses), QF1006 (condition), QF1007, QF1002/QF1003 (if-chain -> tagged switch) do not change "
             "result, panics or events of an effectful expression language, for all well-typed operands. The models are tied to the current /repo "
             "on every run (runner positions, real fixes through testutil.applyEdits, report.shortRange on every corpus node, NegateDeMorgan / "
-            "SimplifyParentheses on generated expressions). EXPLORED, not proved: that every analyzer's positions and fixes satisfy the statement "
-            "(all testdata packages x 5 variants, generated trigger shapes of 27 checks (24 simple/quickfix with behaviour comparison); parse/type-check by go/parser+go/types, "
+            "SimplifyParentheses on generated expressions). Round 2 (Control.lean): (v) for all conditions/bodies with arbitrary effects and outcomes "
+            "(labelled/unlabelled break, continue, return) and all fuels, 'own: for { if c { break lab }; body }' = 'own: for !c { body }' when "
+            "lab is absent or the loop's own label (qf1006_loop_preserves), and they differ as soon as c holds when lab names another statement "
+            "(qf1006_outer_label_differs); the clauses of the switch built by QF1003/QF1002 end like the bodies of the chain when no body "
+            "INCLUDING the final else ends in an unlabelled break (qf1003_bodies_preserve, counterexample qf1003_else_break_differs); the chain-wide "
+            "'seen' set accepts exactly the chains whose constant case values are pairwise distinct, independent of visiting order "
+            "(qf1003_seen_iff_nodup; a per-branch set is insufficient). These control-flow models are hand transliterations tied through the behaviour "
+            "oracle on fixed guard functions (corpus/C16/regress.go G_QF1006_*, G_QF1003_*, R_QF1003_2), not compared tree-by-tree. EXPLORED, not proved: that every analyzer's positions and fixes satisfy the statement "
+            "(all testdata packages x 5 variants, generated trigger shapes of 29 checks (25 simple/quickfix with behaviour comparison; triggers placed as left/right operand of every "
+            "operator class, under unary operators, as base of index/slice expressions and as argument; labelled loops whose label is used elsewhere; "
+            "repeated constants across branches; CRLF corpus file with multi-line raw strings); parse/type-check by go/parser+go/types, "
             "behaviour by executing generated functions before/after each fix). Not covered: std/the repository as corpus, checks without a "
             "generated shape (their fixes are only parsed/type-checked on testdata), renamed-import shadowing.",
     "note": "Trusted: Lean kernel (axioms propext/Classical.choice/Quot.sound), compiled c16driver, harness/cmd/c16lint|c16apply|c16variant and "
             "checks/c16.py (oracle, generators), go/token, go/scanner, go/parser, go/types, go/printer, the Go compiler. The Lean expression semantics "
-            "(left-to-right evaluation, short-circuit, panics) is a model of the Go spec, not verified against it. Seven defects were found by the "
-            "check and fixed in /repo (S1002, QF1001, QF1005, QF1002/QF1003, astutil.SimplifyParentheses, S1033, SA4013) and two by-design "
+            "(left-to-right evaluation, short-circuit, panics) is a model of the Go spec, not verified against it. Twelve defects were found by the "
+            "check and fixed in /repo (S1002, QF1001, QF1005, QF1002/QF1003, astutil.SimplifyParentheses, S1033, SA4013; round 2: QF1003 break in the "
+            "final else, S1016 &(T{...}), S1034 comma-ok, S1025 indexed/sliced call, ST1018 raw strings in CRLF files) and two by-design "
             "deviations are listed as findings (S1001, S1018: copy() panics differ from the loop); see findings.d/C16.txt.",
     "design_ref": "DESIGN.md section 5, C16",
 }
